@@ -1,4 +1,5 @@
 import Gimli.Lemmas.ConvUnit
+import Gimli.Lemmas.WUnit
 /-!
 # C12, unit / attribute component — read → write conversion keeps the entry forest and the
 meaning of every attribute, or fails
@@ -299,6 +300,51 @@ theorem convert_attr_untyped_offset_is_error (cx : ConvUnit.Ctx) (a : RAttr) (hf
   simp only [convertValue, hf, if_false, h]
   rcases hk with hk | hk | hk | hk | hk <;> subst hk <;> cases p <;> rfl
 
+/-! ## (b') converted, written, read back -/
+
+/-- what the reader of the written form must report for a directly carried value: the input's
+own payload -/
+def expectedFormVal (form : Form) (v : Value) : Option FormVal :=
+  match v.kind, v.payload with
+  | .block, .bytes b | .string, .bytes b => some (.bytes b)
+  | .data1, .num x | .data2, .num x | .data4, .num x | .data8, .num x | .data16, .num x | .udata, .num x
+  | .debugInfoRefSup, .num x | .debugMacinfoRef, .num x | .debugMacroRef, .num x | .debugTypesRef, .num x
+  | .debugStrRefSup, .num x | .dwoId, .num x
+  | .encoding, .num x | .decimalSign, .num x | .endianity, .num x | .accessibility, .num x
+  | .visibility, .num x | .virtuality, .num x | .language, .num x | .addressClass, .num x
+  | .identifierCase, .num x | .callingConvention, .num x | .inline, .num x | .ordering, .num x => some (.num x)
+  | .flag, .flag b => some (.num (if form = .flagPresent then 1 else if b then 1 else 0))
+  | _, _ => none
+
+theorem decoded_direct (wcx : WUnit.Ctx) (form : Form) (v : Value) (w : AttrVal) (fv : FormVal)
+    (hd : directOut form v = some w) (he : expectedFormVal form v = some fv) : decoded wcx w = some fv := by
+  obtain ⟨k, p⟩ := v
+  cases k <;> cases p <;> simp only [directOut, Option.some.injEq, reduceCtorEq] at hd <;>
+    simp only [expectedFormVal, Option.some.injEq, reduceCtorEq] at he <;> subst hd he
+  all_goals first | rfl | (by_cases hf : form = Form.flagPresent <;> simp [hf, decoded])
+
+/-- **Convert, write, read back: the reader gets the input's own payload** — for the kinds the
+conversion carries over directly (constants of every width, blocks, inline strings, flags,
+signatures, supplementary and macro offsets, the enumeration classes), under every encoding: the
+bytes `AttributeValue::write` emits for the converted value, read with the primitive readers of
+the form `AttributeValue::form` chose (`WUnit.readForm`, C09 readers — C11
+`attr_bytes_decode_partial`), give back exactly the payload the input attribute had, and consume
+exactly those bytes.  Partial: signed constants (`Sdata`, `DW_FORM_implicit_const`) are outside
+C11's decode theorem; references, strings in tables and addresses are covered by
+`convert_attr_meaning_ref/string/address` and C11's `unit_refs_resolve` / `fixups_resolve` /
+`string_offset_resolves`. -/
+theorem convert_write_read_partial (cx : ConvUnit.Ctx) (wcx : WUnit.Ctx) (a : RAttr) (w : AttrVal) (fv : FormVal)
+    (pos : Nat) (em : Emit) (rest : Bytes) (hf : a.form ≠ .implicitConst)
+    (hd : directOut a.form (normalise a.name a.raw) = some w)
+    (he : expectedFormVal a.form (normalise a.name a.raw) = some fv)
+    (hr : w.InRange) (hemit : attrEmit wcx pos w = .ok em)
+    (hso : ∀ o ∈ wcx.strOffsets, o < 2 ^ 64) (hlo : ∀ o ∈ wcx.lineStrOffsets, o < 2 ^ 64)
+    (hlp : ∀ o, wcx.lineProgram = some o → o < 2 ^ 64) :
+    convertValue cx a = .ok w ∧
+      readForm wcx.endian wcx.enc (attrForm wcx.enc w).1 (em.bytes ++ rest) = .ok (fv, rest) :=
+  ⟨convert_attr_meaning_direct cx a w hf hd,
+   attr_bytes_decode' wcx pos w em fv rest hemit hr (decoded_direct wcx a.form _ w fv hd he) hso hlo hlp⟩
+
 /-! ## (d) totality, and failing only for a reason -/
 
 /-- **The conversion of a unit fails only because the unit has no root entry or because the
@@ -335,6 +381,7 @@ example : exForest.WF ∧ exForest.flatten 0 = [(1, 0, 0x2e), (2, 1, 0x34), (3, 
 example : exForest.HasIds (fun off => if 21 ≤ off ∧ off ≤ 23 then some (off - 20) else none) := by
   simp [exForest, IForest.HasIds]
 
-example : directOut .data4 ⟨.data4, .num 7⟩ = some (.data4 7) := by decide
+example : directOut .data4 ⟨.data4, .num 7⟩ = some (.data4 7) ∧
+    expectedFormVal .data4 ⟨.data4, .num 7⟩ = some (.num 7) ∧ (AttrVal.data4 7).InRange := by decide
 
 end Gimli.Props.C12
